@@ -1071,6 +1071,19 @@ impl ExecutionEngine {
                                 &mut results,
                             );
                         }
+                    } else if let Some(GraphId::Named(active_id)) = context.active_graph {
+                        // Evaluated from a fresh solution inside `GRAPH ?g` (a
+                        // subquery, or the standalone side of a hash or
+                        // nested-loop join): the enclosing GRAPH operator has
+                        // already fixed the graph this scan ranges over.
+                        Self::scan_one_graph(
+                            database,
+                            pattern,
+                            GraphId::Named(active_id),
+                            Some((variable, active_id)),
+                            &row,
+                            &mut results,
+                        );
                     } else {
                         let mut visible_graphs: Vec<_> =
                             context.dataset.named_graphs.iter().copied().collect();
